@@ -646,6 +646,16 @@ fn finish_inner(cx: &Ctx, early: bool) -> i32 {
 			eprintln!("DEBUG-KEY {}", k);
 		}
 	}
+	if std::env::var("VERIF_CONFIRM").is_ok() {
+		// confirmation run (see below): only the keys matter
+		let mut keys: Vec<&String> = unknown.iter().map(|(v, _)| &v.key).collect();
+		keys.sort();
+		keys.dedup();
+		for k in keys {
+			println!("CONFIRM-KEY {}", k);
+		}
+		return if unknown.is_empty() { 0 } else { 1 };
+	}
 	let mut code = 0;
 	let mut reported = HashSet::new();
 	let mut confirmed = 0;
@@ -691,6 +701,25 @@ fn finish_inner(cx: &Ctx, early: bool) -> i32 {
 							confirmed += 1;
 							code = 1;
 							continue;
+						}
+						// Last resort: the whole exploration again in a fresh process on ONE thread, i.e. with a
+						// fixed order of calls into the library. Every input of the library is owned by the harness
+						// (bytes, read schedule, clocks), so if the same verdict comes back the failing history is
+						// "the calls this check makes, in order" - the library keeps state from call to call.
+						if std::env::var("VERIF_CONFIRM").is_err() {
+							let tier = if cx.quick() { "quick" } else { "thorough" };
+							let o2 = std::process::Command::new(std::env::current_exe().unwrap()).arg(cx.prop).arg("--tier").arg(tier).env("VERIF_THREADS", "1").env("VERIF_CONFIRM", "1").output();
+							if let Ok(o2) = o2 {
+								let so2 = String::from_utf8_lossy(&o2.stdout);
+								if so2.lines().any(|l| l.trim() == format!("CONFIRM-KEY {}", v.key)) {
+									println!("VIOLATION property={} replay={}", cx.prop, path);
+									println!("  {}", v.msg);
+									println!("  (history-dependent: not reproducible as a single call in a fresh process, but reproduced by running this check on one thread, `VERIF_THREADS=1 ./check {}` - the library keeps state across calls)", cx.prop);
+									confirmed += 1;
+									code = 1;
+									continue;
+								}
+							}
 						}
 						eprintln!(
 							"machinery: violation not reproduced identically in a fresh process (nondeterministic harness?)\n  key: {}\n  replay said: {}",
